@@ -72,9 +72,13 @@ Proj(t) == [live |-> [i \in Sids |-> i \in t.live], kval |-> t.kval, kh |-> t.kh
 \* what the client is sent, what the call returns ("" = the call goes on)
 E(n, op, q, p, v, ans, r, ret) == [n |-> n, op |-> op, q |-> q, p |-> p, v |-> v, ans |-> ans, r |-> r, ret |-> ret]
 
+\* Emit = "edge": one TRACE line per explored edge. The script carries the predicted answer of every
+\* request and the value every call returns; the predicted server state is given for the last step
+\* (every prefix of a script is the script of an earlier edge).
 Step(t, e) ==
   /\ s' = t
   /\ hist' = Append(hist, e)
+  /\ (Emit = "edge" => PrintT("TRACE " \o ToJson([h |-> hist', st |-> Proj(s')])))
 
 (* ------------------------------ the server ------------------------------ *)
 SetKey(t, v, h) == [t EXCEPT !.old = t.kval, !.kval = v, !.kh = h]
@@ -211,10 +215,9 @@ SetGet(n, ans) ==
      ELSE Step([s EXCEPT !.pc[n] = "set_put"], E(n, "setcid", "cid.get", 0, "", ans, r, ""))
 
 \* consul.go:263 ... then KV().Put (as written: unconditional; repair: cas=0)
-SetPut(n, ans) ==
+SetPutV(n, ans, v) ==
   /\ s.pc[n] = "set_put" /\ ans \in WAns
-  /\ LET v == CidOf(n)
-         r == IF UseCAS /\ s.cid # "" THEN "false" ELSE "true"
+  /\ LET r == IF UseCAS /\ s.cid # "" THEN "false" ELSE "true"
          t == IF Applied(ans) /\ r = "true"
               THEN [s EXCEPT !.cid = v, !.flags = @ \cup (IF s.cid \notin {"", v} THEN {"cid-overwritten"} ELSE {})]
               ELSE s
@@ -222,6 +225,7 @@ SetPut(n, ans) ==
      Step([t EXCEPT !.pc[n] = "idle"],
           E(n, "setcid", IF UseCAS THEN "cid.cas" ELSE "cid.put", 0, v, ans, seen,
             IF seen = "true" THEN "ok" ELSE IF seen = "false" THEN "already" ELSE "err"))
+SetPut(n, ans) == SetPutV(n, ans, CidOf(n))
 
 (* ------------------------------- Handoff --------------------------------- *)
 \* consul.go:314 Lease.Handoff(ctx, nodeID) -> HandoffCh(); the store then sends Lease.ID() to that
@@ -242,6 +246,9 @@ XAcq == /\ "xacq" \in EnvActs /\ s.nsess < MaxSess /\ s.kh = 0 /\ ~s.delay
         /\ Env(SetKey(Create(s, "x"), "x", s.nsess + 1), "xacq", s.nsess + 1, "x")
 \* a competing primary initialises the cluster ID (correctly: only if unset)
 XCid == "xcid" \in EnvActs /\ s.cid = "" /\ Env([s EXCEPT !.cid = "B"], "xcid", 0, "B")
+\* an operator rewrites or deletes the cluster-ID key (only in trace validation: the store-level scripts
+\* of Lease.tla let the lease service report arbitrary ids)
+CidAny(v) == "cidany" \in EnvActs /\ Env([s EXCEPT !.cid = v], "cidany", 0, v)
 \* the competing primary hands its lease to node m
 XHand(m) == /\ "xhand" \in EnvActs /\ s.kh # 0 /\ s.owner[s.kh] = "x" /\ s.handed[m] = 0 /\ s.lease[m] = 0 /\ s.pc[m] = "idle"
             /\ \A k \in Nodes : <<k, s.kh>> \notin s.hoLog          \* a lease is handed over once
@@ -262,9 +269,7 @@ Trans ==
   \/ DelayElapse \/ XAcq \/ XCid
   \/ \E m \in Nodes : XHand(m)
 
-\* the script carries the predicted answer of every request and return value of every call; the
-\* predicted server state is given for the last step (every prefix is the script of an earlier edge)
-Next == Trans /\ (Emit = "edge" => PrintT("TRACE " \o ToJson([h |-> hist', st |-> Proj(s')])))
+Next == Trans
 Spec == Init /\ [][Next]_vars
 
 (* ============================== properties ============================== *)
